@@ -326,7 +326,29 @@ func runC02(p *Program, r *Result) {
 		got, _, _, err := p.Extract(Site{Pkg: pkgStream, Func: "nonceIsZero", What: "ret:0"})
 		want := specRecipe(r, "stream.nonceIsZero.result")
 		if err != nil {
-			r.Unk(niz.String(), "recipe", "", err.Error())
+			// not a single expression: the element loop form, decided by E10 (every byte must be 0
+			// for the loop to carry on, true only after the whole array was visited)
+			decided := false
+			if ep, _ := p.elemPredicate(niz, func(v ssa.Value) bool { return len(niz.Params) == 1 && v == ssa.Value(niz.Params[0]) }); ep != nil {
+				eq, ok, w := ep.Equals(func(c int64) bool { return c == 0 }, []int64{0})
+				if ok {
+					decided = true
+					trueAfter := true
+					for _, ret := range returnsOf(niz) {
+						if c, isC := ret.Results[0].(*ssa.Const); isC && c.Value.ExactString() == "true" {
+							if !p.completedAt(ep.Loop, ret.Block()) {
+								trueAfter = false
+							}
+						} else if !isC {
+							trueAfter = false
+						}
+					}
+					r.Check(eq && trueAfter, niz.String(), "recipe", "", "every byte of the nonce is compared with zero", "nonceIsZero does not test every byte for zero (differs at byte value "+itoa(int(w))+")")
+				}
+			}
+			if !decided {
+				r.Unk(niz.String(), "recipe", "", err.Error())
+			}
 		} else {
 			r.Check(got == want, niz.String(), "recipe", "", got, "nonceIsZero is "+got+", want "+want)
 		}
